@@ -6,6 +6,9 @@ set -u
 ID=$1; P=$2; DEMO=$3; PKG=$4
 export GOFLAGS=-mod=mod GOPROXY=off GOSUMDB=off
 W=/tmp/mutfix
+# the scratch worktree is created on demand; remove it afterwards with
+#   git -C /repo worktree remove --force /tmp/mutfix
+[ -d $W ] || git -C /repo worktree add -q --detach $W HEAD || exit 3
 cd $W || exit 3
 git checkout -q --detach $(git -C /repo rev-parse HEAD) 2>/dev/null
 git reset -q --hard; git clean -fdq
